@@ -8,7 +8,7 @@ from gen import effect_status_table as gen_table
 
 PID = 'C05'
 GENERATORS = ['effect_status_table']
-LEAN_TARGETS = ['EosProofs.Props.C05']
+LEAN_TARGETS = ['EosProofs.Props.C05', 'EosProofs.Props.C05World']
 DRIVERS = ['drv_effstatus']
 RULE = ('table: every row of the complete product (19600 = 4 states x 5 modes x 8 categories x default x 7 online '
         'situations x chance x 5 overrides, incl. the effect being "online" itself) is run on the real resolver and '
